@@ -480,6 +480,13 @@ func (n *Node) Chan(id channel.ID) *client.Channel {
 	return n.chanByID[id]
 }
 
+// ChansSnapshot returns the channels this node's client has announced so far.
+func (n *Node) ChansSnapshot() []*client.Channel {
+	n.mu.Lock()
+	defer n.mu.Unlock()
+	return append([]*client.Channel(nil), n.Chans...)
+}
+
 // Ctx returns a context with the node's default timeout.
 func (n *Node) Ctx() (context.Context, context.CancelFunc) {
 	return context.WithTimeout(context.Background(), n.CtxTimeout+n.W.S.Delay("ctx:"+n.Name, 0, time.Millisecond))
